@@ -14,6 +14,8 @@ DEC_SKILL = [0.1, 0.3, 0.7, 1.0, 1.1]
 DEC_COST = [0.0, 0.1, 1.0, 3.3, 7.7]
 SIZES = [0.5, 1.0, 1.0, 1.0, 2.0, 1.0, 1.0, 0.5, 2.0, 0.0]
 CAPS = [0.0, 0.5, 1.0, 1.0, 1.5, 2.0, 3.0, 1.0, 2.0, float("inf")]
+TIGHT_SIZES = [0.5, 1.0, 1.0, 1.0, 2.0]  # capacity contention: every component takes room, every workplace is small
+TIGHT_CAPS = [0.5, 1.0, 1.0, 1.5, 2.0, 3.0]
 N_TASK_W = [(1, 4), (2, 14), (3, 20), (4, 20), (5, 16), (6, 11), (7, 8), (8, 7)]
 
 
@@ -128,7 +130,7 @@ def gen_model(rng, p, n_tasks=None):
     if p["comps"]:
         nc = rng.randint(1, 4)
         for k in range(nc):
-            comps.append({"id": "c%d" % k, "size": rng.choice(SIZES), "children": []})
+            comps.append({"id": "c%d" % k, "size": rng.choice(TIGHT_SIZES if p.get("tight") else SIZES), "children": []})
         if p["nested"]:
             for k in range(1, nc):
                 if rng.random() < 0.6:
@@ -212,7 +214,7 @@ def gen_model(rng, p, n_tasks=None):
                 if p["solo"] and rng.random() < 0.3:
                     f["solo"] = True
                 facs.append(f)
-            wp = {"id": "p%d" % k, "cap": rng.choice(CAPS), "targets": targets, "inputs": [], "facs": facs}
+            wp = {"id": "p%d" % k, "cap": rng.choice(TIGHT_CAPS if p.get("tight") else CAPS), "targets": targets, "inputs": [], "facs": facs}
             if p["conveyor"] and k > 0:
                 wp["inputs"] = [i for i in range(k) if rng.random() < 0.5]
             wps.append(wp)
